@@ -281,3 +281,393 @@ func uniq(s []string) []string {
 	}
 	return out
 }
+
+func init() {
+	register(&Rule{ID: "NR-1", Min: 3, Run: runNR1,
+		Doc: "an empty schema has no root node: in the API package every use of the root schema's RootNode() result (passing it on, calling through it) is dominated by a comparison of that root node with nil that excludes nil — the other entry points check it, so an unchecked use is a contradiction (a nil dereference that a recover turns into a foreign runtime error)"})
+}
+
+func runNR1(c *load.Ctx, r *report.RuleResult) {
+	const rel = "notations/jschema"
+	rootNode := c.Func(pkgSchema, "Schema.RootNode")
+	if rootNode == nil {
+		r.Unk("anchor|schema.Schema.RootNode", "", "not found")
+		return
+	}
+	// the receiver must be the API object's own inner schema: loaded through a field named inner
+	isInner := func(v ssa.Value) bool {
+		for depth := 0; depth < 6; depth++ {
+			switch x := v.(type) {
+			case *ssa.UnOp:
+				v = x.X
+			case *ssa.FieldAddr:
+				return fieldName(x.X.Type(), x.Field) == "inner"
+			default:
+				return false
+			}
+		}
+		return false
+	}
+	for _, fn := range c.ModuleFunctions() {
+		if load.FuncPkgRel(fn) != rel {
+			continue
+		}
+		var calls []*ssa.Call
+		for _, call := range callSites(fn, rootNode) {
+			if len(call.Call.Args) > 0 && isInner(call.Call.Args[0]) {
+				calls = append(calls, call)
+			}
+		}
+		if len(calls) == 0 {
+			continue
+		}
+		// blocks in which the root node is known to be non-nil
+		var nonNilBlocks []*ssa.BasicBlock
+		for _, call := range calls {
+			for _, ref := range *call.Referrers() {
+				bo, ok := ref.(*ssa.BinOp)
+				if !ok {
+					continue
+				}
+				k, isConst := bo.Y.(*ssa.Const)
+				if !isConst || !k.IsNil() {
+					continue
+				}
+				for _, br := range *bo.Referrers() {
+					if iff, ok := br.(*ssa.If); ok {
+						blk := iff.Block()
+						if bo.Op.String() == "==" {
+							nonNilBlocks = append(nonNilBlocks, blk.Succs[1])
+						} else if bo.Op.String() == "!=" {
+							nonNilBlocks = append(nonNilBlocks, blk.Succs[0])
+						}
+					}
+				}
+			}
+		}
+		for i, call := range calls {
+			key := fmt.Sprintf("rootnode|%s|use#%d", load.FuncKey(fn), i+1)
+			var uses []ssa.Instruction
+			for _, ref := range *call.Referrers() {
+				switch x := ref.(type) {
+				case *ssa.BinOp:
+					continue // a comparison
+				case *ssa.DebugRef:
+					continue
+				case *ssa.Store:
+					// stored into a local and compared later: follow the local's loads
+					if a, ok := x.Addr.(*ssa.Alloc); ok {
+						for _, ar := range *a.Referrers() {
+							if u, ok := ar.(*ssa.UnOp); ok {
+								for _, ur := range *u.Referrers() {
+									if _, isCmp := ur.(*ssa.BinOp); !isCmp {
+										uses = append(uses, ur)
+									}
+								}
+							}
+						}
+						continue
+					}
+					uses = append(uses, x)
+				default:
+					uses = append(uses, ref)
+				}
+			}
+			if len(uses) == 0 {
+				r.OK(key, c.Pos(call.Pos()), "only compared with nil")
+				continue
+			}
+			bad := ""
+			for _, u := range uses {
+				ok := false
+				for _, nb := range nonNilBlocks {
+					if nb == u.Block() || nb.Dominates(u.Block()) {
+						ok = true
+					}
+				}
+				if !ok {
+					bad = c.Pos(u.Pos())
+				}
+			}
+			if bad != "" {
+				r.Bad(key, c.Pos(call.Pos()), "the root node of a possibly empty schema is used at "+bad+" without a dominating nil check (Example, GetAST and the compiler check it): an empty schema makes this a nil dereference")
+			} else {
+				r.OK(key, c.Pos(call.Pos()), "use dominated by a nil check")
+			}
+		}
+	}
+}
+
+func init() {
+	register(&Rule{ID: "LB-const", Min: 3, Run: runLBConst,
+		Doc: "constant-index reads are guarded: every read s[k] of a slice or string with a constant index k whose length is not fixed by construction is dominated by a test that establishes len(s) > k (an emptiness test for k = 0); otherwise an empty or short input indexes out of range"})
+}
+
+// lenGuarded: is instruction at dominated by a branch that guarantees len(s) > k ?
+func lenGuarded(at ssa.Instruction, s ssa.Value, k int64) bool {
+	fn := at.Parent()
+	sameSlice := func(v ssa.Value) bool { return v == s || sameOrigin(v, s) }
+	for _, b := range fn.Blocks {
+		iff, ok := b.Instrs[len(b.Instrs)-1].(*ssa.If)
+		if !ok {
+			continue
+		}
+		bo, ok := iff.Cond.(*ssa.BinOp)
+		if !ok {
+			continue
+		}
+		// normalise to len(s) OP c
+		var lenSide, other ssa.Value = bo.X, bo.Y
+		op := bo.Op.String()
+		if !isLenOf(lenSide, sameSlice) {
+			lenSide, other = bo.Y, bo.X
+			op = flipCmp(op)
+		}
+		if !isLenOf(lenSide, sameSlice) {
+			continue
+		}
+		cst, ok := other.(*ssa.Const)
+		if !ok || cst.Value == nil {
+			continue
+		}
+		cv := cst.Int64()
+		// which successor guarantees len > k ?
+		var good *ssa.BasicBlock
+		switch op {
+		case ">":
+			if cv >= k {
+				good = b.Succs[0]
+			}
+		case ">=":
+			if cv >= k+1 {
+				good = b.Succs[0]
+			}
+		case "<":
+			if cv >= k+1 {
+				good = b.Succs[1]
+			}
+		case "<=":
+			if cv >= k {
+				good = b.Succs[1]
+			}
+		case "==":
+			if cv == 0 && k == 0 {
+				good = b.Succs[1]
+			}
+			if cv >= k+1 {
+				good = b.Succs[0]
+			}
+		case "!=":
+			if cv == 0 && k == 0 {
+				good = b.Succs[0]
+			}
+			if cv >= k+1 {
+				good = b.Succs[1]
+			}
+		}
+		if good != nil && (good == at.Block() || good.Dominates(at.Block())) && len(good.Preds) == 1 {
+			return true
+		}
+	}
+	return false
+}
+
+func flipCmp(op string) string {
+	switch op {
+	case "<":
+		return ">"
+	case "<=":
+		return ">="
+	case ">":
+		return "<"
+	case ">=":
+		return "<="
+	}
+	return op
+}
+
+func isLenOf(v ssa.Value, same func(ssa.Value) bool) bool {
+	for depth := 0; depth < 4; depth++ {
+		switch x := v.(type) {
+		case *ssa.Convert:
+			v = x.X
+		case *ssa.ChangeType:
+			v = x.X
+		case *ssa.Call:
+			if b, ok := x.Call.Value.(*ssa.Builtin); ok && b.Name() == "len" && len(x.Call.Args) == 1 {
+				return same(x.Call.Args[0])
+			}
+			return false
+		default:
+			return false
+		}
+	}
+	return false
+}
+
+// sameOrigin: two SSA values that are the same load of the same variable/field or conversions of one
+// another.
+func sameOrigin(a, b ssa.Value) bool {
+	strip := func(v ssa.Value) ssa.Value {
+		for depth := 0; depth < 4; depth++ {
+			switch x := v.(type) {
+			case *ssa.ChangeType:
+				v = x.X
+			case *ssa.Convert:
+				v = x.X
+			default:
+				return v
+			}
+		}
+		return v
+	}
+	a, b = strip(a), strip(b)
+	if a == b {
+		return true
+	}
+	ua, ok1 := a.(*ssa.UnOp)
+	ub, ok2 := b.(*ssa.UnOp)
+	if ok1 && ok2 {
+		fa, ok3 := ua.X.(*ssa.FieldAddr)
+		fb, ok4 := ub.X.(*ssa.FieldAddr)
+		if ok3 && ok4 && fa.Field == fb.Field && fa.X == fb.X {
+			return true
+		}
+		if ua.X == ub.X {
+			return true
+		}
+	}
+	return false
+}
+
+// lbConstReviewed: constant-index reads whose guard is relational or established elsewhere.
+var lbConstReviewed = map[string]string{
+	"constindex|formats/json.(*scanner).newDocumentErrorAtCharacter|[]rune(…)[0]":                         "the runes come from data[index-1:], which holds at least the byte just consumed (index >= 1 after Next's increment)",
+	"constindex|notations/jschema/internal/scanner.(*Scanner).newDocumentErrorAtCharacter|[]rune(…)[0]":   "same: data[index-1:] is never empty inside a step function",
+	"constindex|rules/enum.(*scanner).newDocumentErrorAtCharacter|[]rune(…)[0]":                           "same: data[index-1:] is never empty inside a step function",
+	"constindex|internal/json.(*Number).trimLeadingZerosInTheIntegerPart|.nat[0]":                         "the loop runs at most len(nat)-exp times (exp <= len(nat) is checked first) and removes one byte per turn, so nat is not empty when read",
+	"constindex|notations/jschema/internal/schema/constraint.(*TypesList).AddNameWithASTNode|name[0]":     "names come from or-items and type shortcuts; the first name of a shortcut starts with @ and once hasUserTypes is true the index is short-circuited; or-items are validated as known types before they are recorded (an empty one is reported as code 102)",
+	"constindex|notations/jschema/internal/loader.checkBranchNodeWithOrConstraint|element of Names()[0]":                   "same names as above: an empty or-item is rejected (code 102) before this check runs",
+	"constindex|bytes.(Bytes).ParseInt|b[0]":                                                              "called with the exponent text of a scanned numeral (value[expBegin:]), which starts at a sign or digit",
+	"constindex|bytes.(Bytes).TrimSquareBrackets|b[0]":                                                    "under lastCharIndex > 0 in the same condition (len(b) >= 2)",
+	"constindex|notations/jschema/internal/schema/constraint.parseBytes|b[8]":                             "after the switch on len(b): every surviving case leaves b with exactly 36 bytes",
+	"constindex|notations/jschema/internal/schema/constraint.parseBytes|b[13]":                            "same: len(b) == 36",
+	"constindex|notations/jschema/internal/schema/constraint.parseBytes|b[18]":                            "same: len(b) == 36",
+	"constindex|notations/jschema/internal/schema/constraint.parseBytes|b[23]":                            "same: len(b) == 36",
+}
+
+func runLBConst(c *load.Ctx, r *report.RuleResult) {
+	counts := map[string]int{}
+	for _, fn := range c.ModuleFunctions() {
+		for _, b := range fn.Blocks {
+			for _, ins := range b.Instrs {
+				var base, idx ssa.Value
+				switch x := ins.(type) {
+				case *ssa.IndexAddr:
+					base, idx = x.X, x.Index
+				case *ssa.Index:
+					base, idx = x.X, x.Index
+				case *ssa.Lookup:
+					if _, isStr := x.X.Type().Underlying().(*types.Basic); isStr {
+						base, idx = x.X, x.Index
+					}
+				}
+				if base == nil {
+					continue
+				}
+				k, ok := idx.(*ssa.Const)
+				if !ok || k.Value == nil {
+					continue
+				}
+				switch base.Type().Underlying().(type) {
+				case *types.Slice, *types.Basic:
+				default:
+					continue // arrays / pointers to arrays have a static length
+				}
+				// slices built in this function with a known length
+				if fixedLen(base, k.Int64()) {
+					continue
+				}
+				keyBase := fmt.Sprintf("constindex|%s|%s[%d]", load.FuncKey(fn), describeValue(base), k.Int64())
+				counts[keyBase]++
+				key := keyBase
+				if counts[keyBase] > 1 {
+					key = fmt.Sprintf("%s|#%d", keyBase, counts[keyBase])
+				}
+				if lenGuarded(ins, base, k.Int64()) {
+					r.OK(key, c.Pos(ins.Pos()), "dominated by a length test")
+				} else if reason, ok := lbConstReviewed[key]; ok {
+					r.OK(key, c.Pos(ins.Pos()), "reviewed: "+reason)
+				} else {
+					r.Bad(key, c.Pos(ins.Pos()), fmt.Sprintf("reads element %d without a dominating test that the length exceeds %d: an empty or short value panics with index out of range", k.Int64(), k.Int64()))
+				}
+			}
+		}
+	}
+}
+
+func fixedLen(v ssa.Value, k int64) bool {
+	for depth := 0; depth < 6; depth++ {
+		switch x := v.(type) {
+		case *ssa.Slice:
+			// s[:n] of an array or with constant high bound
+			if h, ok := x.High.(*ssa.Const); ok && h.Value != nil && h.Int64() > k {
+				return true
+			}
+			if _, ok := x.X.Type().Underlying().(*types.Pointer); ok {
+				return true // slice of a (pointer to) array: variadic packs, literals
+			}
+			v = x.X
+		case *ssa.MakeSlice:
+			if l, ok := x.Len.(*ssa.Const); ok && l.Value != nil && l.Int64() > k {
+				return true
+			}
+			return false
+		case *ssa.ChangeType:
+			v = x.X
+		case *ssa.Convert:
+			if cst, ok := x.X.(*ssa.Const); ok && cst.Value != nil {
+				return true
+			}
+			v = x.X
+		case *ssa.Const:
+			return true
+		default:
+			return false
+		}
+	}
+	return false
+}
+
+func describeValue(v ssa.Value) string {
+	switch x := v.(type) {
+	case *ssa.UnOp:
+		if fa, ok := x.X.(*ssa.FieldAddr); ok {
+			return "." + fieldName(fa.X.Type(), fa.Field)
+		}
+		if a, ok := x.X.(*ssa.Alloc); ok && a.Comment != "" {
+			return a.Comment
+		}
+		if ia, ok := x.X.(*ssa.IndexAddr); ok {
+			return "element of " + describeValue(ia.X)
+		}
+		return "load of " + describeValue(x.X)
+	case *ssa.Call:
+		if sc := x.Call.StaticCallee(); sc != nil {
+			return sc.Name() + "()"
+		}
+	case *ssa.Parameter:
+		return x.Name()
+	case *ssa.Convert:
+		return types.TypeString(x.Type(), func(p *types.Package) string { return p.Name() }) + "(…)"
+	case *ssa.Slice:
+		return describeValue(x.X) + "[:]"
+	case *ssa.Phi:
+		if c := x.Comment; c != "" {
+			return c
+		}
+	case *ssa.Extract:
+		return "result of " + describeValue(x.Tuple)
+	}
+	return "value of type " + types.TypeString(v.Type(), func(p *types.Package) string { return p.Name() })
+}
